@@ -55,28 +55,27 @@ def since_like(A, f, g, tau, S, lo, hi, future):
     """f since g (future=False) / f until g (future=True) at tau; witness segments restricted to those meeting
     [lo,hi] (None = unbounded).  Elementary segments come from the unsorted union of both operands' break-points."""
     B = [s[0] for s in f] + [s[0] for s in g]
+    nxt = [_next(A, B, b) for b in B]
+    vf = [val(A, f, b) for b in B]
+    vg = [val(A, g, b) for b in B]
     cands = []
-    for b in B:
-        nb = _next(A, B, b)
+    for i, b in enumerate(B):
+        nb = nxt[i]
         if not future:
             cond = [A.le(S, b), A.le(b, tau)]
             if hi is not None:
                 cond.append(A.le(b, hi))
             if lo is not None:
                 cond.append(A.lt(lo, nb))
-            inner = gmin(A, [(A.And(A.le(b, bp), A.le(bp, tau)), val(A, f, bp)) for bp in B])
+            inner = gmin(A, [(A.And(A.le(b, bp), A.le(bp, tau)), vf[j]) for j, bp in enumerate(B)])
         else:
             cond = [A.le(S, b), A.lt(tau, nb)]
             if hi is not None:
                 cond.append(A.le(b, hi))
             if lo is not None:
                 cond.append(A.lt(lo, nb))
-            inner_c = []
-            for bp in B:
-                nbp = _next(A, B, bp)
-                inner_c.append((A.And(A.le(S, bp), A.lt(tau, nbp), A.le(bp, b)), val(A, f, bp)))
-            inner = gmin(A, inner_c)
-        cands.append((A.And(*cond), A.min([val(A, g, b), inner])))
+            inner = gmin(A, [(A.And(A.le(S, bp), A.lt(tau, nxt[j]), A.le(bp, b)), vf[j]) for j, bp in enumerate(B)])
+        cands.append((A.And(*cond), A.min([vg[i], inner])))
     return gmax(A, cands)
 
 
